@@ -275,6 +275,11 @@ def _lark_init_vs_load(ctx: Ctx, res: RuleResult, post, post_funcs):
             if isinstance(n, ast.Subscript) and isinstance(n.value, ast.Name) and n.value.id in data_holders \
                     and const_str(n.slice) is not None and f.qual == load.qual:
                 data_keys.add(const_str(n.slice))
+            # ... or without the temporary: <container>['data'][<key>]
+            if isinstance(n, ast.Subscript) and isinstance(n.value, ast.Subscript) and isinstance(n.value.value, ast.Name) \
+                    and n.value.value.id in holders and const_str(n.value.slice) == 'data' and const_str(n.slice) is not None \
+                    and f.qual == load.qual:
+                data_keys.add(const_str(n.slice))
     ok = fields <= data_keys | {'grammar'} and data_keys - {'grammar'} <= fields
     res.ob(site, '_load reads data keys %s; Lark serialises %s' % (sorted(data_keys), sorted(fields)), ok)
     if not ok:
